@@ -55,6 +55,11 @@ def level_filter(ctx):
                     l, r = r, l
             verdict = (l, op, r)
         if verdict is None:
+            # the receivers may be selected by a helper (a generator that yields the connections whose level is reached)
+            helpers = [g for site, g in helper_methods_called(m, h) if 'levelno' in src(g.node, 9000)]
+            if helpers:
+                ctx.undecided(f'{h.qualname}:send_log guarded by level comparison', c, f'the level comparison lives in {helpers[0].qualname}', h)
+                continue
             ctx.bad(f'{h.qualname}:send_log guarded by level comparison', c,
                     'send_log is not controlled by a comparison of record.levelno with the subscribed level', h)
             continue
@@ -99,6 +104,9 @@ def off_removes(ctx):
     for s in stores:
         sid = set(cfg.node_of(s))
         keyed = src(s.slice) == 'conn'
+        if not keyed and 'subscriptions' in src(s.value) and isinstance(getattr(s, 'parent', None), ast.Assign) and \
+                isinstance(s.parent.value, ast.Dict) and not s.parent.value.keys:
+            continue        # `self.subscriptions[modname] = {}`: the (empty) table of a module is created, nothing is stored for a connection
         ctx.check(keyed and not (sid & on_t - on_f), f'{f.qualname}:store keyed by conn', s,
                   'level stored for this connection only, on the non-OFF branch',
                   f'`{src(s)}` is not keyed by conn or is executed on the OFF branch: other connections are affected', f)
